@@ -34,7 +34,7 @@ const DOMAIN_RATIO: f64 = 100.0 * SOLVER_CUTOFF;
 
 #[derive(Clone, Debug, Serialize, Deserialize)]
 struct Case {
-    /// "fit" | "err_k0" | "err_kp1" | "err_empty"
+    /// "fit" | "err_k0" | "err_kp1" | "err_empty" | "history"
     kind: String,
     family: String,
     variant: usize,
@@ -46,6 +46,11 @@ struct Case {
     /// float parser may be 1 ulp off, and unconverged solver output is sensitive to that)
     #[serde(default)]
     x_bits: Vec<Vec<u64>>,
+    /// second matrix of the same shape (kind "history" only): the "other batch"
+    #[serde(default)]
+    y: Vec<Vec<f64>>,
+    #[serde(default)]
+    y_bits: Vec<Vec<u64>>,
     k: usize,
     whiten: bool,
     /// memory layout of the records handed to fit / predict / transform:
@@ -75,6 +80,8 @@ struct Stats {
     projection_checked: u64,
     layout_compared: u64,
     single_row_checked: u64,
+    history_case: bool,
+    history_steps: u64,
     max_orth: f64,
     max_align: f64,
     max_align_widened_tol: f64,
@@ -157,6 +164,9 @@ struct Fitted {
 }
 
 fn run_case(case: &Case, viols: &mut Vec<Violation>) -> Stats {
+    if case.kind == "history" {
+        return run_history(case, viols);
+    }
     let mut sv: Vec<Violation> = Vec::new();
     let mut fitted: Option<Fitted> = None;
     let p = case.p;
@@ -844,11 +854,257 @@ where
     st
 }
 
+// ---------------------------------------------------------------------- call histories
+//
+// Nothing here needs a numeric oracle: every comparison is between two executions of the same
+// deterministic computation (seeded solver) and is therefore BIT-exact. What varies is the history:
+// how the parameter object was built, what was fitted / projected before, what the output buffer held.
+
+/// Everything observable of a fitted model, as bit patterns (NaN-safe comparison).
+fn model_bits(m: &Pca<f64>) -> Vec<Vec<u64>> {
+    let b = |v: Vec<f64>| v.into_iter().map(|x| x.to_bits()).collect::<Vec<u64>>();
+    vec![
+        vec![m.components().nrows() as u64, m.components().ncols() as u64],
+        b(m.components().iter().cloned().collect()),
+        b(m.singular_values().to_vec()),
+        b(m.mean().to_vec()),
+        b(m.explained_variance().to_vec()),
+        b(m.explained_variance_ratio().to_vec()),
+    ]
+}
+
+fn arr_bits(a: &Array2<f64>) -> (Vec<usize>, Vec<u64>) {
+    (a.shape().to_vec(), a.iter().map(|x| x.to_bits()).collect())
+}
+
+/// Outcome of a fit as a comparable value: model bits, or the error / panic text.
+fn fit_outcome(params: &linfa_reduction::PcaParams, a: &Array2<f64>) -> (Result<Vec<Vec<u64>>, String>, Option<Pca<f64>>) {
+    let ds = DatasetBase::from(a.clone());
+    match guarded(|| params.fit(&ds)) {
+        Ok(Ok(m)) => (Ok(model_bits(&m)), Some(m)),
+        Ok(Err(e)) => (Err(format!("Err({})", e)), None),
+        Err(p) => (Err(format!("panic({})", p)), None),
+    }
+}
+
+fn run_history(case: &Case, viols: &mut Vec<Violation>) -> Stats {
+    use linfa::traits::PredictInplace;
+    let mut st = Stats::default();
+    st.min_rel_gap_checked = f64::INFINITY;
+    st.history_case = true;
+    let cj = || serde_json::to_value(case).unwrap();
+    let (p, k, w) = (case.p, case.k, case.whiten);
+    let a = to_arr(&case.x, p);
+    let b = to_arr(&case.y, p);
+    let n = a.nrows();
+
+    // ---------------- (1) builder history: every way of writing the same final parameter set
+    let canon = Pca::params(k).whiten(w);
+    let mut builds: Vec<(&str, linfa_reduction::PcaParams)> = vec![
+        ("params(k).whiten(!w).whiten(w)", Pca::params(k).whiten(!w).whiten(w)),
+        ("params(k).whiten(w).whiten(w)", Pca::params(k).whiten(w).whiten(w)),
+        ("params(k).whiten(w).whiten(!w).whiten(w)", Pca::params(k).whiten(w).whiten(!w).whiten(w)),
+        ("params(k).whiten(!w).whiten(!w).whiten(w)", Pca::params(k).whiten(!w).whiten(!w).whiten(w)),
+        ("params(k).whiten(w).clone()", Pca::params(k).whiten(w).clone()),
+    ];
+    if !w {
+        builds.push(("params(k)  [whitening is off by default]", Pca::params(k)));
+    }
+    let want_dbg = format!("PcaParams {{ embedding_size: {}, apply_whitening: {} }}", k, w);
+    if format!("{:?}", canon) != want_dbg {
+        viols.push(Violation::new("pca.params.builder_order_dependence", format!("params({}).whiten({}) prints as {:?}, expected {}", k, w, canon, want_dbg), cj()));
+    }
+    let (canon_out, canon_model) = fit_outcome(&canon, &a);
+    for (name, prm) in &builds {
+        st.history_steps += 1;
+        if *prm != canon || format!("{:?}", prm) != want_dbg {
+            viols.push(Violation::new(
+                "pca.params.builder_order_dependence",
+                format!("{} = {:?} differs from the canonical params({}).whiten({}) = {:?}", name, prm, k, w, canon),
+                cj(),
+            ));
+            continue;
+        }
+        let (out, _) = fit_outcome(prm, &a);
+        if out != canon_out {
+            viols.push(Violation::new(
+                "pca.params.builder_order_dependence",
+                format!("fit with {} gives a different model / outcome than with the canonical params({}).whiten({}) on the same data", name, k, w),
+                cj(),
+            ));
+        }
+    }
+
+    // ---------------- (2) the same parameter object fitted on A, on B, on A again
+    let (out_b_fresh, model_b_fresh) = fit_outcome(&Pca::params(k).whiten(w), &b);
+    let (out_a1, _) = fit_outcome(&canon, &a);
+    let (out_b, _) = fit_outcome(&canon, &b);
+    let (out_a2, _) = fit_outcome(&canon, &a);
+    st.history_steps += 3;
+    if out_a1 != canon_out || out_a2 != canon_out || out_b != out_b_fresh {
+        viols.push(Violation::new(
+            "pca.params.fit_depends_on_previous_fit",
+            "fitting the same PcaParams object on A, then B, then A again does not reproduce the models of fresh parameter objects bit for bit".to_string(),
+            cj(),
+        ));
+    }
+
+    let (Some(model), Some(model_b)) = (canon_model, model_b_fresh) else {
+        // the fit itself fails identically for every history (checked above): nothing to project
+        return st;
+    };
+    st.nontrivial = true;
+
+    // ---------------- (3) the same model applied to A, B, A; inverse_transform after another batch
+    let seq = guarded(|| {
+        let za1 = model.predict(&a);
+        let ra1 = model.inverse_transform(za1.clone());
+        let zb = model.predict(&b);
+        let ra_after_b = model.inverse_transform(za1.clone());
+        let za2 = model.predict(&a);
+        let rb = model.inverse_transform(zb.clone());
+        let ra2 = model.inverse_transform(za2.clone());
+        (za1, ra1, zb, ra_after_b, za2, rb, ra2)
+    });
+    let (za, zb) = match seq {
+        Err(msg) => {
+            viols.push(Violation::new("pca.predict.panic", format!("predict / inverse_transform sequence A, B, A panicked: {}", msg), cj()));
+            return st;
+        }
+        Ok((za1, ra1, zb, ra_after_b, za2, rb, ra2)) => {
+            st.history_steps += 7;
+            if arr_bits(&za1) != arr_bits(&za2) {
+                viols.push(Violation::new("pca.predict.depends_on_previous_call", "predict(A), predict(B), predict(A): the second answer for A differs from the first".to_string(), cj()));
+            }
+            // a model fitted on A must answer for B as a separately fitted copy of itself does
+            let fresh = fit_outcome(&canon, &a).1.map(|m| (m.predict(&b), m));
+            if let Some((zb_fresh, m2)) = fresh {
+                if arr_bits(&zb_fresh) != arr_bits(&zb) {
+                    viols.push(Violation::new("pca.predict.depends_on_previous_call", "predict(B) after predict(A) differs from predict(B) of a freshly fitted identical model".to_string(), cj()));
+                }
+                if arr_bits(&m2.inverse_transform(zb.clone())) != arr_bits(&rb) {
+                    viols.push(Violation::new("pca.inverse_transform.depends_on_previous_call", "inverse_transform(z_B) after other calls differs from that of a freshly fitted identical model".to_string(), cj()));
+                }
+            }
+            if arr_bits(&ra1) != arr_bits(&ra_after_b) || arr_bits(&ra1) != arr_bits(&ra2) {
+                viols.push(Violation::new(
+                    "pca.inverse_transform.depends_on_previous_call",
+                    "inverse_transform(z_A) changes after predict(B) / a second predict(A)".to_string(),
+                    cj(),
+                ));
+            }
+            (za1, zb)
+        }
+    };
+    let kk = za.ncols();
+
+    // ---------------- (4) predict_inplace into poisoned / re-used buffers of the right shape
+    let poisons: Vec<(&str, Array2<f64>)> = vec![
+        ("NaN", Array2::from_elem((n, kk), f64::NAN)),
+        ("+inf", Array2::from_elem((n, kk), f64::INFINITY)),
+        ("1e300", Array2::from_elem((n, kk), 1e300)),
+        ("the negated answer", za.mapv(|v| -v)),
+        ("the answer itself", za.clone()),
+        ("the projection of the other batch B (buffer re-used)", zb.clone()),
+        ("the other model's projection of A", model_b.predict(&a)),
+    ];
+    for (name, buf0) in poisons {
+        if buf0.shape() != [n, kk] {
+            continue; // the other model kept a different number of components
+        }
+        st.history_steps += 1;
+        let mut buf = buf0.clone();
+        match guarded(|| {
+            model.predict_inplace(&a, &mut buf);
+            buf
+        }) {
+            Ok(buf) => {
+                if arr_bits(&buf) != arr_bits(&za) {
+                    let first = (0..n * kk).find(|i| buf.iter().nth(*i).unwrap().to_bits() != za.iter().nth(*i).unwrap().to_bits()).unwrap_or(0);
+                    viols.push(Violation::new(
+                        "pca.predict_inplace.depends_on_previous_buffer_content",
+                        format!(
+                            "predict_inplace(A) into a buffer pre-filled with {} differs from predict(A): element {} is {:e}, expected {:e}",
+                            name,
+                            first,
+                            buf.iter().nth(first).unwrap(),
+                            za.iter().nth(first).unwrap()
+                        ),
+                        cj(),
+                    ));
+                }
+            }
+            Err(msg) => viols.push(Violation::new("pca.predict_inplace.panic", format!("predict_inplace into a buffer of the right shape pre-filled with {} panicked: {}", name, msg), cj())),
+        }
+    }
+    // a chain through one buffer: B, A, B, A
+    {
+        let mut buf = model.default_target(&a);
+        let ok = guarded(|| {
+            model.predict_inplace(&b, &mut buf);
+            let b1 = buf.clone();
+            model.predict_inplace(&a, &mut buf);
+            let a1 = buf.clone();
+            model.predict_inplace(&b, &mut buf);
+            let b2 = buf.clone();
+            model.predict_inplace(&a, &mut buf);
+            (b1, a1, b2, buf.clone())
+        });
+        st.history_steps += 4;
+        match ok {
+            Ok((b1, a1, b2, a2)) => {
+                if arr_bits(&b1) != arr_bits(&zb) || arr_bits(&b2) != arr_bits(&zb) || arr_bits(&a1) != arr_bits(&za) || arr_bits(&a2) != arr_bits(&za) {
+                    viols.push(Violation::new(
+                        "pca.predict_inplace.depends_on_previous_buffer_content",
+                        "predict_inplace of B, A, B, A through ONE buffer does not reproduce predict(B) / predict(A)".to_string(),
+                        cj(),
+                    ));
+                }
+            }
+            Err(msg) => viols.push(Violation::new("pca.predict_inplace.panic", format!("predict_inplace chain through one buffer panicked: {}", msg), cj())),
+        }
+    }
+
+    // ---------------- (5) calling forms: arrays, array views, datasets, dataset views, owned / borrowed
+    {
+        let targets = ndarray::Array1::from_iter((0..n).map(|i| i as f64));
+        let weights = ndarray::Array1::from_iter((0..n).map(|i| 1.0 + i as f32));
+        let forms = guarded(|| {
+            let ds = DatasetBase::new(a.clone(), targets.clone()).with_weights(weights.clone());
+            let mut out: Vec<(&str, Array2<f64>)> = Vec::new();
+            out.push(("predict(&array_view)", model.predict(&a.view())));
+            out.push(("predict(array) -> dataset.targets", model.predict(a.clone()).targets));
+            out.push(("predict(&dataset)", model.predict(&ds)));
+            out.push(("predict(&dataset.view())", model.predict(&ds.view())));
+            out.push(("predict(dataset) -> dataset.targets", model.predict(ds.clone()).targets));
+            out.push(("transform(dataset).records", model.transform(ds.clone()).records));
+            out.push(("transform(dataset.view()).records", model.transform(ds.view()).records));
+            out.push(("transform(unweighted dataset).records", model.transform(DatasetBase::from(a.clone())).records));
+            out
+        });
+        match forms {
+            Ok(out) => {
+                for (name, z) in out {
+                    st.history_steps += 1;
+                    if arr_bits(&z) != arr_bits(&za) {
+                        viols.push(Violation::new("pca.transform.calling_forms_differ", format!("{} differs from predict(&array) on the same records", name), cj()));
+                    }
+                }
+            }
+            Err(msg) => viols.push(Violation::new("pca.transform.panic", format!("a calling form of predict / transform panicked: {}", msg), cj())),
+        }
+    }
+    st
+}
+
 fn replay_value(v: &Value) -> Vec<Violation> {
     let c: Case = match serde_json::from_value::<Case>(v.clone()) {
         Ok(mut c) => {
             if c.x_bits.len() == c.x.len() && !c.x_bits.is_empty() {
                 c.x = c.x_bits.iter().map(|r| r.iter().map(|b| f64::from_bits(*b)).collect()).collect();
+            }
+            if c.y_bits.len() == c.y.len() && !c.y_bits.is_empty() {
+                c.y = c.y_bits.iter().map(|r| r.iter().map(|b| f64::from_bits(*b)).collect()).collect();
             }
             c
         }
@@ -990,7 +1246,7 @@ fn main() {
          axis scales 1:10:100, the same rotated by fixed Givens angles, rank-1 / rank-2 integer factor models + constant jitter, offset 1e3, offset +-1e3 of the rotated one, all columns x 1e-3, all x 1e3, columns x (1e-3, 1, 1e3); \
          k = 1..p with whitening off and on (full oracle), k = 0 and k = p+1 (must be Err), 0 x p data for every k (must be Err). Every member is run. \
          evaluation = one fit with all assertions; non-trivial = a valid fit inside the domain predicate; out_of_domain = (matrix, k) whose k-th covariance eigenvalue is below 100 x the solver's documented null-space cut-off; \
-         Every fit case is run with the records in four memory layouts (standard, column-major owned, transposed view of a feature-major buffer, reversed-row view of a reversed copy): all oracles apply to each and the model must agree with the standard-layout fit.          Large-n family: n in {1024, 1025, 1500, 2048, 4097}, p in {2,3}, k in {1, p}, 2 (quick) / 4 (thorough) lattice members ((i+1) g_j mod 4099) - 2049, whole matrix projected in one call.          For rows {0, 1, n/2, 1023, 1024, n-2, n-1} the projection of the row alone must equal its row of the whole projection; predict_inplace twice into one buffer must equal predict.          distinct by construction (family, variant, n, p, k, whitening, layout).",
+         Every fit case is run with the records in four memory layouts (standard, column-major owned, transposed view of a feature-major buffer, reversed-row view of a reversed copy): all oracles apply to each and the model must agree with the standard-layout fit.          Large-n family: n in {1024, 1025, 1500, 2048, 4097}, p in {2,3}, k in {1, p}, 2 (quick) / 4 (thorough) lattice members ((i+1) g_j mod 4099) - 2049, whole matrix projected in one call.          For rows {0, 1, n/2, 1023, 1024, n-2, n-1} the projection of the row alone must equal its row of the whole projection; predict_inplace twice into one buffer must equal predict.          Call histories (kind history; every catalogue member A with its successor B of the same shape, every k, whitening off/on; plus n = 1025 (quick) / 1025, 1500, 4097 (thorough) with k = p):          six ways of writing the same parameter set (decoy-then-real whiten, repeated, cloned, default) must be == / print as / fit like the canonical one; the same params object fitted on A, B, A; the same model projecting A, B, A and inverting z_A before / after B;          predict_inplace(A) into buffers pre-filled with NaN, +inf, 1e300, -answer, answer, the projection of B, another model's projection, and a B, A, B, A chain through one buffer; eight calling forms (array view, owned array, dataset, dataset view, owned dataset, transform of dataset / dataset view / unweighted dataset) - all compared BIT for bit.          distinct by construction (kind, family, variant, n, p, k, whitening, layout).",
     );
     ctx.assume("oracle = lvmc_core::refmath::jacobi_eig (plain f64 cyclic Jacobi) of the sample covariance with divisor n-1; its residual |C v - lambda v| <= 1e-12 lambda_1 is verified for every matrix (else MACHINERY-ERROR)");
     ctx.assume("tolerance 1e-6 (LOBPCG accuracy; TruncatedSvd precision 1e-5 / residual 1e-10) for everything that depends on the solver: orthonormality, alignment sin(angle), variances relative to lambda_1, whitened covariance, reconstruction relative to max |x - mean|");
@@ -1007,6 +1263,7 @@ fn main() {
     let variants = ctx.pick(1usize, 4usize);
     let mut cases: Vec<Case> = Vec::new();
     let mut n_matrices = 0u64;
+    let mut n_history = 0u64;
     let mut fam_counts: std::collections::BTreeMap<String, u64> = Default::default();
     for v in 0..variants {
         for &n in &ns {
@@ -1014,7 +1271,18 @@ fn main() {
                 if n <= p {
                     continue;
                 }
-                for (family, x) in catalogue(n, p, v) {
+                let cat = catalogue(n, p, v);
+                // call histories: every member as batch A with its successor in the catalogue as batch B
+                for (i, (family, x)) in cat.iter().enumerate() {
+                    let (fam_b, y) = &cat[(i + 1) % cat.len()];
+                    for whiten in [false, true] {
+                        for k in 1..=p {
+                            n_history += 1;
+                            cases.push(Case { kind: "history".into(), family: format!("{} | {}", family, fam_b), variant: v, n, p, x: x.clone(), x_bits: bits(x), y: y.clone(), y_bits: bits(y), k, whiten, layout: "standard".into() });
+                        }
+                    }
+                }
+                for (family, x) in cat {
                     n_matrices += 1;
                     *fam_counts.entry(family.clone()).or_default() += 1;
                     for whiten in [false, true] {
@@ -1027,7 +1295,7 @@ fn main() {
                                 "fit"
                             };
                             for layout in LAYOUTS {
-                                cases.push(Case { kind: kind.into(), family: family.clone(), variant: v, n, p, x: x.clone(), x_bits: bits(&x), k, whiten, layout: layout.into() });
+                                cases.push(Case { kind: kind.into(), family: family.clone(), variant: v, n, p, x: x.clone(), x_bits: bits(&x), y: vec![], y_bits: vec![], k, whiten, layout: layout.into() });
                             }
                         }
                     }
@@ -1038,7 +1306,7 @@ fn main() {
     for &p in &ps {
         for whiten in [false, true] {
             for k in 1..=p {
-                cases.push(Case { kind: "err_empty".into(), family: "empty".into(), variant: 0, n: 0, p, x: vec![], x_bits: vec![], k, whiten, layout: "standard".into() });
+                cases.push(Case { kind: "err_empty".into(), family: "empty".into(), variant: 0, n: 0, p, x: vec![], x_bits: vec![], y: vec![], y_bits: vec![], k, whiten, layout: "standard".into() });
             }
         }
     }
@@ -1055,13 +1323,27 @@ fn main() {
                 for whiten in [false, true] {
                     for k in [1usize, p] {
                         for layout in LAYOUTS {
-                            cases.push(Case { kind: "fit".into(), family: family.clone(), variant: 0, n, p, x: x.clone(), x_bits: xb.clone(), k, whiten, layout: layout.into() });
+                            cases.push(Case { kind: "fit".into(), family: family.clone(), variant: 0, n, p, x: x.clone(), x_bits: xb.clone(), y: vec![], y_bits: vec![], k, whiten, layout: layout.into() });
                         }
                     }
                 }
             }
         }
     }
+    // call histories across the internal block size: n = 1025 (quick) / also 1500 and 4097 (thorough), k = p
+    for &n in ctx.pick(&[1025usize][..], &[1025usize, 1500, 4097][..]) {
+        for &p in &[2usize, 3] {
+            let cat = large_catalogue(n, p, ctx.thorough());
+            for (i, (family, x)) in cat.iter().enumerate() {
+                let (fam_b, y) = &cat[(i + 1) % cat.len()];
+                for whiten in [false, true] {
+                    n_history += 1;
+                    cases.push(Case { kind: "history".into(), family: format!("{} | {}", family, fam_b), variant: 0, n, p, x: x.clone(), x_bits: bits(x), y: y.clone(), y_bits: bits(y), k: p, whiten, layout: "standard".into() });
+                }
+            }
+        }
+    }
+    ctx.extra("history_cases", json!(n_history));
     ctx.extra("large_n_matrices", json!(n_large));
     ctx.extra("catalogue_matrices", json!(n_matrices));
     ctx.extra("catalogue_matrices_per_family", json!(fam_counts));
@@ -1079,6 +1361,7 @@ fn main() {
     let c_fit = AtomicU64::new(0);
     let c_layout = AtomicU64::new(0);
     let c_rows = AtomicU64::new(0);
+    let c_hist = AtomicU64::new(0);
     let c_whiten = AtomicU64::new(0);
     let m_orth = AtomicU64::new(0);
     let m_align = AtomicU64::new(0);
@@ -1096,7 +1379,7 @@ fn main() {
             ctx.out_of_domain();
         }
         ctx.eval(st.nontrivial);
-        if st.nontrivial {
+        if st.nontrivial && !st.history_case {
             let solver_viol = st.solver_violation;
             let mut m = by_pk.lock().unwrap();
             let e = m.entry(format!("p={} k={}{}", c.p, c.k, if c.n >= 1024 { " large-n" } else { "" })).or_insert([0, 0]);
@@ -1115,6 +1398,7 @@ fn main() {
         c_fit.fetch_add(st.projection_checked, Ordering::Relaxed);
         c_layout.fetch_add(st.layout_compared, Ordering::Relaxed);
         c_rows.fetch_add(st.single_row_checked, Ordering::Relaxed);
+        c_hist.fetch_add(st.history_steps, Ordering::Relaxed);
         if st.projection_checked > 0 && c.whiten {
             c_whiten.fetch_add(1, Ordering::Relaxed);
         }
@@ -1147,6 +1431,7 @@ fn main() {
     ctx.extra("fits_with_full_oracle", json!(c_fit.load(Ordering::Relaxed)));
     ctx.extra("non_standard_layout_fits_compared_with_standard_fit", json!(c_layout.load(Ordering::Relaxed)));
     ctx.extra("single_row_projections_compared", json!(c_rows.load(Ordering::Relaxed)));
+    ctx.extra("history_steps_compared_bit_for_bit", json!(c_hist.load(Ordering::Relaxed)));
     ctx.extra("fits_with_full_oracle_whitened", json!(c_whiten.load(Ordering::Relaxed)));
     ctx.extra("single_axes_compared_with_eigenvector", json!(c_single.load(Ordering::Relaxed)));
     ctx.extra("degenerate_blocks_compared_by_projector", json!(c_block.load(Ordering::Relaxed)));
